@@ -24,7 +24,7 @@ from typing import Dict, List, Optional, Set, Tuple
 from engine.src import FunctionInfo, own_nodes, own_nodes_incl_lambda, src_of, AnalysisError
 from engine.util import is_self_attr, enclosing_tests, enclosing_stmt, kwarg, const_value, assign_targets
 from engine.affine import lin, LinErr
-from .sem import defs_texts, expander, ctext, want, cond_want, conds_at, bind, calls, returns, stmt_of, self_attr_value_texts
+from .sem import opaque_helpers_in, defs_texts, expander, ctext, want, cond_want, conds_at, bind, calls, returns, stmt_of, self_attr_value_texts
 from engine.guards import cond_text
 
 RULES = {
@@ -36,6 +36,13 @@ RULES = {
 
 MOD = "mlinsights.mlmodel._kmeans_constraint_"
 KMOD = "mlinsights.mlmodel.kmeans_constraint"
+
+
+def _parents_of(n: ast.AST):
+    p = getattr(n, "_parent", None)
+    while p is not None:
+        yield p
+        p = getattr(p, "_parent", None)
 
 
 def _block_of(stmt: ast.AST) -> List[ast.stmt]:
@@ -174,6 +181,16 @@ def check_a(ck, repo):
     L, C, LC, LIM, LO = _pn(fi, P_LABELS), _pn(fi, P_COUNTERS), _pn(fi, P_LEFTCLOSE), _pn(fi, P_LIMIT), _pn(fi, P_LEFTOVER)
     ex = expander(repo)
     n = 0
+    # an extra slot taken is an extra slot less: wherever a cluster is marked as having taken
+    # its extra point, the count of remaining extras goes down in the same block
+    for st_ in own_nodes(fi.node):
+        if isinstance(st_, ast.Assign) and len(st_.targets) == 1 and isinstance(st_.targets[0], ast.Subscript) and src_of(st_.targets[0].value) == LC and not isinstance(st_.targets[0].slice, ast.Slice) and src_of(st_.value) not in ("-1",):
+            if not any(isinstance(p_, (ast.For, ast.While)) for p_ in _parents_of(st_)):
+                continue
+            eff_ = _effects(repo, fi, _block_of(st_), st_)
+            decs_ = [e for e in eff_ if e[0] == "ninc" and e[3] == -1]
+            ok_ = any([tx for _, tx in defs_texts(repo, fi, d_[1])][:1] == [LO] or LO in [tx for _, tx in defs_texts(repo, fi, d_[1])] for d_ in decs_)
+            ck.verdict(ok_, "C07.a", fi, st_, f"{src_of(st_)} is paired with a decrement of the remaining extras in the same block", f"{src_of(st_)} marks the cluster as having taken its extra point but the number of extras left (initialised to {LO}) is not decremented in the same block: every full cluster can take an extra point, not only {LO} of them, so sizes exceed ceil(n/k)")
     for s, sets in _label_events(repo, fi, L):
         if len(sets) != 1:
             ck.violated("C07.a", fi, s, "label assignment is not of the form labels[point] = cluster")
@@ -204,6 +221,9 @@ def check_a(ck, repo):
             marks = [e for e in eff if e[0] == "set" and e[1] == LC and e[2] == cx and e[3] != "-1"]
             inits = [tx for _, tx in defs_texts(repo, fi, left)]
             ck.verdict(len(marks) == 1 and inits == [LO], "C07.a", fi, s, f"leftover clause: {left} (initialised to {LO}) decremented and the cluster marked as having taken its extra point", f"leftover clause does not consume the allowance ({left} = {LO} initially, {left} -= 1 and {LC}[{c}] marked expected): a cluster can take more than one extra point")
+        elif opaque_helpers_in(repo, fi, [cx] + [t_ for t_, _p in conds]):
+            hs = opaque_helpers_in(repo, fi, [cx] + [t_ for t_, _p in conds])
+            ck.unknown("C07.a", fi, s, f"the cluster of this assignment is chosen by {hs[0]}(), a helper whose search loop returns from inside: the quota and leftover tests it applies are not looked through, so the pairing of this assignment with them is not decided")
         else:
             ck.violated("C07.a", fi, s, f"{L}[{idx}] = {c} is executed where {sorted(conds)[:4]}; expected `{C}[{c}] < {LIM}` or `<remaining extras> > 0 and {LC}[{c}] == -1` (with the extras decremented in the same block): a cluster can exceed its quota")
         unassigned = {cond_want(repo, f"{L}[{idx}] >= 0", fi, s, False), cond_want(repo, f"{L}[{idx}] == -1", fi, s), cond_want(repo, f"{L}[{idx}] != -1", fi, s, False)}
@@ -549,6 +569,7 @@ def run(ck):
 _F = "mlinsights/mlmodel/_kmeans_constraint_.py"
 _K = "mlinsights/mlmodel/kmeans_constraint.py"
 WITNESSES = [
+    {"name": "extra-slot-not-counted", "file": _F, "rule": "C07.a", "old": "                    labels[ind] = c\n                    nover -= 1\n                    leftclose[c] = 0\n", "new": "                    labels[ind] = c\n                    leftclose[c] = 0\n"},
     {"name": "quota-le", "file": _F, "rule": "C07.a", "old": "                if counters[c] < limit:\n", "new": "                if counters[c] <= limit:\n"},
     {"name": "quota-no-increment", "file": _F, "rule": "C07.a", "old": "                    # The cluster still accepts new points.\n                    counters[c] += 1\n", "new": "                    # The cluster still accepts new points.\n"},
     {"name": "leftover-not-consumed", "file": _F, "rule": "C07.a", "old": "                    nover -= 1\n                    leftclose[c] = 0\n", "new": "                    leftclose[c] = 0\n"},
